@@ -1,4 +1,5 @@
 IL = 'crates/anemo-tower/src/inflight_limit.rs'
+RL = 'crates/anemo-tower/src/rate_limit.rs'
 CANARIES = [
     dict(id='i-layer-builds-a-fresh-table', unit='limits', what='every service built by the layer gets a table of its own', expect=['InflightLimitLayer::layer::shares_the_layers_table'],
          edits=[(IL, """            inner,
@@ -25,4 +26,18 @@ CANARIES = [
             res""")]),
     dict(id='i-return-error-mode-blocks', unit='enum_limits', what='ReturnError mode waits instead of refusing', expect=['enum_limits::inflight_schedules'],
          edits=[(IL, """                WaitMode::ReturnError => semaphore.try_acquire().map_err(|e| match e {""", """                WaitMode::ReturnError => semaphore.acquire().await.map_err(|_| tokio::sync::TryAcquireError::Closed).map_err(|e| match e {""")]),
+    dict(id='q-layer-builds-a-fresh-limiter', unit='limits', what='every service built by the rate-limit layer gets a limiter of its own', expect=['RateLimitLayer::layer::shares_the_layers_limiter'],
+         edits=[(RL, """            inner,
+            limiter: self.limiter.clone(),""", """            inner,
+            limiter: Arc::new(RateLimiter::dashmap_with_clock(governor::Quota { burst: 1 }, &self.clock)),""")]),
+    # ---- rate limiter (bounded twin on the governor model) ----
+    dict(id='q-one-quota-for-everybody', unit='enum_limits', what='all peers share one quota', expect=['enum_limits::rate_limit_histories'],
+         edits=[(RL, "if let Err(e) = limiter.check_key(peer_id) {", "if let Err(e) = limiter.check() {")]),
+    dict(id='q-refusal-without-hint', unit='enum_limits', what='a refusal carries no wait hint', expect=['enum_limits::rate_limit_histories'],
+         edits=[(RL, """                        )
+                        .with_header(WAIT_NANOS_HEADER, format!("{}", wait_time.as_nanos())));""", """                        ));""")]),
+    dict(id='q-refused-request-still-served', unit='enum_limits', what='a request over quota is passed on anyway', expect=['enum_limits::rate_limit_histories'],
+         edits=[(RL, """                        return Err(anemo::rpc::Status::new(""", """                        let _refusal: Result<(), _> = Err(anemo::rpc::Status::new(""")]),
+    dict(id='q-block-mode-does-not-wait', unit='enum_limits', what='Block mode checks the quota once and goes on', expect=['enum_limits::rate_limit_histories'],
+         edits=[(RL, "WaitMode::Block => limiter.until_key_ready(peer_id).await,", "WaitMode::Block => { let _ = limiter.check_key(peer_id); }")]),
 ]
